@@ -103,6 +103,15 @@ def check_windows(case, tr):
 
 
 def generate(rng, tier, seed):
+    from . import gen_coll
+    gen_coll.WINDOW_CLEARS = True
+    try:
+        return _generate(rng, tier, seed)
+    finally:
+        gen_coll.WINDOW_CLEARS = False
+
+
+def _generate(rng, tier, seed):
     n = 300 if tier == "quick" else 5000
     cases = []
     for k in range(n):
@@ -191,6 +200,11 @@ def check_node(node, d, t, V, path, prev_value, C):
             V.append(f"{path} t={t}: window valid={d['v']} all_valid={d['av']} with {node.count} pushes (min {node.shape[2]})")
         if d["size"] != len(node.val):
             V.append(f"{path} t={t}: window size {d['size']} != {len(node.val)}")
+        if "hasrem" in d:
+            ev = node.evicted.get(t)
+            if bool(d["hasrem"]) != (ev is not None) or (ev is not None and str(d["remv"]) != str(ev)):
+                V.append(f"{path} t={t}: the window's removed value reads has={d['hasrem']} value={d['remv']} but this cycle's push evicted "
+                         f"{ev if ev is not None else 'nothing'} (previous value + pushed - removed must be the value)")
 
 
 def short(v):
